@@ -35,6 +35,7 @@ type zzConn struct {
 	written   []msg.Message // messages written through the stubbed msg.WriteMsg
 	writeFail bool
 	script    []msg.Message // messages returned by the stubbed msg.ReadMsg (then an error)
+	first     msg.Message   // first scripted message (kept after consumption)
 	readErr   bool
 }
 
@@ -107,6 +108,9 @@ func zzStubReadMsg(c io.Reader) (msg.Message, error) {
 		return nil, io.EOF
 	}
 	m := fc.script[0]
+	if fc.first == nil {
+		fc.first = m
+	}
 	fc.script = fc.script[1:]
 	return m, nil
 }
@@ -260,4 +264,15 @@ func zzSessions(svr *Service) int {
 	svr.ctlManager.mu.RLock()
 	defer svr.ctlManager.mu.RUnlock()
 	return len(svr.ctlManager.ctlsByRunID)
+}
+
+
+func (c *zzConn) scriptFirst() msg.Message {
+	if c.first != nil {
+		return c.first
+	}
+	if len(c.script) > 0 {
+		return c.script[0]
+	}
+	return nil
 }
